@@ -20,14 +20,39 @@ def overlay_from_rev(rev: str, files: list[str]) -> dict[str, str]:
     return out
 
 
+def overlay_from_patch(patch: str) -> dict[str, str]:
+    """Apply a unified diff to a scratch copy of the touched files (outside /repo and /verif) and return them."""
+    import re
+    import shutil
+    import tempfile
+    from pathlib import Path
+    text = open(patch).read()
+    files = sorted(set(re.findall(r"^\+\+\+ b/(\S+)", text, flags=re.M)))
+    tmp = Path(tempfile.mkdtemp(prefix="sa_overlay_"))
+    try:
+        for f in files:
+            (tmp / f).parent.mkdir(parents=True, exist_ok=True)
+            if Path("/repo", f).exists():
+                shutil.copy(Path("/repo", f), tmp / f)
+        r = subprocess.run(["patch", "-p1", "-s", "-d", str(tmp), "-i", patch], capture_output=True, text=True)
+        if r.returncode != 0:
+            raise SystemExit(f"patch does not apply: {r.stdout} {r.stderr}")
+        return {f: (tmp / f).read_text() for f in files if f.startswith("black_it/") and f.endswith(".py")}
+    finally:
+        shutil.rmtree(tmp, ignore_errors=True)
+
+
 def main() -> int:
     ap = argparse.ArgumentParser()
     ap.add_argument("prop")
     ap.add_argument("files", nargs="*")
     ap.add_argument("--rev", default=None)
+    ap.add_argument("--patch", default=None)
     ap.add_argument("--sub", nargs=3, action="append", metavar=("FILE", "OLD", "NEW"), default=[])
     a = ap.parse_args()
     overlay = overlay_from_rev(a.rev, a.files) if a.rev else {}
+    if a.patch:
+        overlay.update(overlay_from_patch(a.patch))
     for f, old, new in a.sub:
         text = overlay.get(f) or open(f"/repo/{f}").read()
         if text.count(old) != 1:
